@@ -73,6 +73,7 @@ static int run_config(vp_rng_t* r, int tscf, int udp, int fd, int count, int pac
     uint32_t serial = 0;
     for (int p = 0; p < packets && rc == 0; p++) {
         frame_t in[64]; memset(in, 0, sizeof in);
+        int fullpkt = (p % 3 == 2);                        /* every third packet: all frames of maximum length (packet filled as far as count allows) */
         for (int i = 0; i < count; i++) {
             uint32_t id; uint8_t flags = 0; uint32_t k = (uint32_t)vp_rng_below(r, 8);
             serial++;
@@ -91,12 +92,12 @@ static int run_config(vp_rng_t* r, int tscf, int udp, int fd, int count, int pac
                 if (id & CAN_RTR_FLAG) id &= ~CAN_RTR_FLAG;                                    /* CAN FD has no remote frames */
                 in[i].fd.can_id = id; in[i].fd.flags = flags;
                 static const uint8_t fdlens[] = { 0, 1, 2, 3, 4, 5, 6, 7, 8, 12, 16, 20, 24, 32, 48, 64 };
-                in[i].fd.len = (vp_rng_next(r) & 1) ? fdlens[vp_rng_below(r, 16)] : (uint8_t)vp_rng_below(r, 65);
+                in[i].fd.len = fullpkt ? 64 : (vp_rng_next(r) & 1) ? fdlens[vp_rng_below(r, 16)] : (uint8_t)vp_rng_below(r, 65);
                 vp_rng_fill(r, in[i].fd.data, in[i].fd.len);
                 if (in[i].fd.len >= 4) memcpy(in[i].fd.data, &serial, 4);
                 if (send(can[0], &in[i].fd, sizeof(struct canfd_frame), 0) < 0) { rc = 2; break; }
             } else {
-                in[i].cc.can_id = id; in[i].cc.len = (uint8_t)vp_rng_below(r, 9);
+                in[i].cc.can_id = id; in[i].cc.len = fullpkt ? 8 : (uint8_t)vp_rng_below(r, 9);
                 vp_rng_fill(r, in[i].cc.data, in[i].cc.len);
                 if (in[i].cc.len >= 4) memcpy(in[i].cc.data, &serial, 4);
                 if (send(can[0], &in[i].cc, sizeof(struct can_frame), 0) < 0) { rc = 2; break; }
@@ -168,9 +169,14 @@ int main(void)
     int rc = 0;
     for (int tscf = 0; tscf < 2; tscf++) for (int udp = 0; udp < 2; udp++) for (int fd = 0; fd < 2; fd++) {
         static const int counts_cc[] = { 1, 2, 3, 7, 60 }; static const int counts_fd[] = { 1, 2, 3, 7, 18 };
-        for (int c = 0; c < 5; c++) {
-            int count = fd ? counts_fd[c] : counts_cc[c];
+        int maxfit = (1500 - (udp ? 4 : 0) - (tscf ? 24 : 12)) / (fd ? 80 : 24);        /* maximum-length frames that fit the talker's buffer */
+        for (int c = 0; c < 7; c++) {
+            int count = c == 5 ? maxfit : c == 6 ? 2 + (int)vp_rng_below(&r, (uint64_t)maxfit - 2) : fd ? counts_fd[c] : counts_cc[c];
             int e = run_config(&r, tscf, udp, fd, count, packets);
+            if (e) rc = e;
+        }
+        if ((int)(seed % 8) == tscf * 4 + udp * 2 + fd) {   /* one long stream per run: sequence numbers wrap, state accumulates */
+            int e = run_config(&r, tscf, udp, fd, 1 + (int)(seed / 8 % 3), 600);
             if (e) rc = e;
         }
     }
